@@ -366,12 +366,16 @@ def with_empty_chunks(draw, sizes):
 BIG_ROWS = [1025, 4097, 5000, 8193, 20000, 66000]
 
 
-def big_rows_case(draw, maxF=3, maxK=3):
+def big_rows_case(draw, maxF=3, maxK=3, many_clusters=False):
     """A seed-only description of thousands of rows around k centres (rebuilt by big_rows(case); a 66000-row array
     does not belong in a replay file), cut into a few large uneven chunks."""
     n = choice(draw, BIG_ROWS) + integer(draw, 0, 7)
+    k = integer(draw, 2, maxK)
+    if many_clusters and choice(draw, [False, False, True]):
+        # rows x clusters beyond 2**20 (a distance matrix of 8 MiB): 32 clusters and 4e4 .. 7e4 rows
+        n, k = choice(draw, [40000, 66000]) + integer(draw, 0, 7), 32
     cuts = sorted(set(integer(draw, 1, n - 1) for _ in range(integer(draw, 1, 4))))
-    return {"F": integer(draw, 1, maxF), "k": integer(draw, 2, maxK), "n": n, "scale": 10.0 ** integer(draw, -2, 2),
+    return {"F": integer(draw, 1, maxF), "k": k, "n": n, "scale": 10.0 ** integer(draw, -2, 2),
             "data_seed": integer(draw, 0, 2**31 - 1), "sorted": boolean(draw),
             "chunks": [b - a for a, b in zip([0] + cuts, cuts + [n])]}
 
